@@ -331,6 +331,15 @@ func (x *Exec) builtin(p *Path, b *ssa.Builtin, cc *ssa.CallCommon, args []Val) 
 		}
 		return scalar(t, r)
 	case "recover":
+		if p.panicking && !p.recovered {
+			// the value of the current panic: some non-nil interface value; the panic stops here
+			v := e.freshVal(p, t, "recovered")
+			if v.K == KIface {
+				p.assume("(> " + v.Tag + " 0)")
+			}
+			p.recovered = true
+			return v
+		}
 		return e.zeroVal(t)
 	case "print", "println":
 		return Val{K: KTuple}
